@@ -125,7 +125,13 @@ def install_native(outdir=None):
     imported first here, then the extension modules are replaced)."""
     if outdir is None:
         outdir = ensure_built()
-    if REPO not in sys.path:
+    # import piquasso's Python sources from REPO's working tree through sys.path (not through
+    # the static module map of the editable-install finder, which would miss new files and
+    # cannot be pointed at a scratch worktree)
+    sys.meta_path[:] = [f for f in sys.meta_path if type(f).__name__ != "ScikitBuildRedirectingFinder"]
+    if "piquasso" in sys.modules and not getattr(sys.modules["piquasso"], "__file__", "").startswith(REPO + os.sep):
+        raise BuildError("piquasso was imported before install_native() from %s" % sys.modules["piquasso"].__file__)
+    if sys.path[0] != REPO:
         sys.path.insert(0, REPO)
     for short, full in _FULLNAMES.items():
         if full in sys.modules and getattr(sys.modules[full], "__verif_built__", False):
